@@ -46,14 +46,15 @@ def modelRejects (prim : String) (p : List Nat) : Bool :=
   | "graydec", [w] => w == 0
   | "grayrt", [w] => w == 0
   | "grayenc", [w] => w == 0
-  | "bpt", [w] => w ≥ 32
   | "divs", [nw, _] => nw < 2
   | "divpipe", [nw, _, _, sgn] => sgn == 1 && nw < 2
   | "crc", [rw, dw, pw] => pw > max rw dw || max rw dw == 0 || dw == 0
   | "bad", _ => true
   | _, _ => false
 
-/-- is the mathematical definition itself undefined for these parameters (malformed use)? -/
+/-- is the mathematical definition itself undefined for these parameters (malformed use)?  Today exactly the parameters the
+generator rejects; a primitive whose generator starts to throw where the definition is meaningful must be listed here as `false`
+(as `biggestPowerOfTwo` for widths ≥ 32 was before 7605865). -/
 def specRejects (prim : String) (p : List Nat) : Bool :=
   match prim, p with
   | "bpt", _ => false           -- the largest power of two below a value is defined at every width
@@ -122,9 +123,7 @@ def evalV (prim : String) (p : List Nat) (ins : List (Nat × Nat)) : Res :=
   | "maxs", [w], [a, b] =>
     { model := some [fmt w (maxS w a.2 b.2)], spec := [some (fmt w ((max (toInt w a.2) (toInt w b.2)) % (2 ^ w : Nat)).toNat)] }
   | "bpt", [w], [a] =>
-    match biggestPowerOfTwo w a.2 with
-    | none => { model := none }
-    | some r => { model := some [fmt w r], spec := [some (fmt w (Spec.biggestPowerOfTwo a.2))] }
+    { model := some [fmt w (biggestPowerOfTwo w a.2)], spec := [some (fmt w (Spec.biggestPowerOfTwo a.2))] }
   | "divu", [nw, dw], [n, d] =>
     { model := some [fmt nw (longDivision nw dw n.2 d.2).1], spec := [if d.2 == 0 then none else some (fmt nw (n.2 / d.2))] }
   | "divs", [nw, dw], [n, d] =>
@@ -298,8 +297,7 @@ def stepTreeReg (d : D) (toks : List String) : IO D := do
     let t := hist.size - 1
     let mut d := { d with histBits := hist }
     if nextPow2 ((n + 2 ^ bps - 1) / 2 ^ bps) != np then return (← d.diff s!"nextPow2 model={nextPow2 ((n + 2 ^ bps - 1) / 2 ^ bps)} impl={np}")
-    let lmax := peTreeDepth bps true (n + 1) n
-    let lmin := peTreeDepth bps false (n + 1) n
+    let lmax := peTreeRegDepth bps (n + 1) n
     if t < lmax then return d              -- registers not yet loaded on every path
     match peTreeReg bps (n + 1) (fun s => hist.getD s []) t with
     | none => d.diff s!"t={t} model=rejects impl={outs}"
@@ -314,7 +312,7 @@ def stepTreeReg (d : D) (toks : List String) : IO D := do
         | [r, v] => v == expV && (match low with | some i => r == fmt o.w i | none => true)
         | _ => false
       if !ok then
-        d ← d.fail s!"t={t} latency={lmax} shortest-path={lmin}{if lmin != lmax then " unbalanced-latency" else ""} in(t-latency)={fmt n (toNat src)} spec=[{(low.map (fmt o.w)).getD "*"}, {expV}] impl={outs}"
+        d ← d.fail s!"t={t} latency={lmax} in(t-latency)={fmt n (toNat src)} spec=[{(low.map (fmt o.w)).getD "*"}, {expV}] impl={outs}"
       return d
   | _, _ => d.diff s!"unparsed petreereg line {toks}"
 
